@@ -352,6 +352,13 @@ fn gen_case(p: &Prog, rng: &mut Rng, thorough: bool, consensus: &Arc<Consensus>)
         lines.push(format!("verify {}", u64::MAX));
     }
     // chunk schedules driven to completion
+    if !all_ok {
+        // cost unknown (the one-shot error carries no cycles): a few coarse schedules only
+        for l in ["5000", "1000000", "200000,400000", "30000,70000,110000"] {
+            lines.push(format!("chunks {l}"));
+        }
+        return Some(lines);
+    }
     let exhaustive = total <= 4096;
     if exhaustive {
         let step = if thorough { 1 } else { 7 };
@@ -361,17 +368,17 @@ fn gen_case(p: &Prog, rng: &mut Rng, thorough: bool, consensus: &Arc<Consensus>)
             l += step;
         }
     }
-    let n_random = if thorough { 60 } else { 12 };
+    let n_random = if exhaustive { if thorough { 60 } else { 12 } } else if thorough { 12 } else { 3 };
     for _ in 0..n_random {
         let k = rng.range(1, 6);
-        let floor = if exhaustive { 0 } else if thorough { total / 300 } else { total / 60 };
+        let floor = if exhaustive { 0 } else if thorough { total / 60 } else { total / 15 };
         let base = (total / rng.range(2, 40)).max(1);
         let ls: Vec<String> = (0..k).map(|_| (rng.range(1, base) + floor).to_string()).collect();
         lines.push(format!("chunks {}", ls.join(",")));
     }
     // suspend, then complete with budgets around the true cost
     if all_ok && total > 2 {
-        let n = if thorough { 40 } else { 10 };
+        let n = if exhaustive { if thorough { 40 } else { 10 } } else if thorough { 8 } else { 3 };
         for _ in 0..n {
             let l = rng.range(1, total - 1);
             if let Ok(VerifyResult::Suspended(s)) = v.resumable_verify(l) {
@@ -423,6 +430,11 @@ pub fn run(opts: &Opts) {
         match gen_case(p, &mut rng, opts.thorough(), &consensus) {
             None => skipped.push(p.name),
             Some(lines) => {
+                let t0 = std::time::Instant::now();
+                if std::env::var("VERIF_SHOW_PANIC").is_ok() {
+                    eprintln!("case {} ({} ops)", p.name, lines.len());
+                }
+                let _ = t0;
                 out.begin_case(p.name);
                 exec_case(&lines, &mut out, &consensus, &rt);
                 // signal path (oracle only: pause instants are wall-clock, not observable)
@@ -432,7 +444,7 @@ pub fn run(opts: &Opts) {
                     let total: u64 = groups.iter().map(|g| g.0).sum();
                     let all_ok = groups.iter().all(|g| g.1 == 0);
                     let one = v.verify(u64::MAX);
-                    let n = if opts.thorough() { 30 } else { 6 } * opts.scale;
+                    let n = if total > 4096 { if opts.thorough() { 8 } else { 2 } } else if opts.thorough() { 30 } else { 6 } * opts.scale;
                     for _ in 0..n {
                         let toggles = rng.range(0, 4);
                         let budget = *rng.pick(&[u64::MAX, total, total + 1, total.saturating_sub(1), total / 2]);
